@@ -364,12 +364,13 @@ def run(rep, ctx):
     rep.rule("R19.7", "get_dimensionality uses the resolved per-atom radii unchanged for the 2x supercell (tiled per copy) and for the cutoff")
     with rep.guard("R19.7"):
         from . import c09 as _c09
-        _c09.r09_3(rep, M, "R19.7")
-        _c09.r09_2(rep, M, "R19.7")
+        from ..report import Filtered
+        only_radii = Filtered(rep, lambda construct: "radii" in construct or "cutoff" in construct)
+        _c09.r09_3(only_radii, M, "R19.7")
+        _c09.r09_2(only_radii, M, "R19.7")
     rep.rule("R19.6", "SBC.get_clusters derives everything it uses from this call's radii (no state carried between calls)")
     with rep.guard("R19.6"):
         from . import c01
-        c01.call_local_state(rep, M, "R19.6", "matid.clustering.sbc.SBC.get_clusters")
         # the distances handed to the region search and to the clusters are this call's get_distances(system_copy, radii)
         GC = "matid.clustering.sbc.SBC.get_clusters"
         fl = Flow(M.func(GC))
@@ -387,7 +388,7 @@ def run(rep, ctx):
     rep.rule("R19.9", "no function keeps results in module-level state or functools caches (answers do not depend on what the process analysed before)")
     with rep.guard("R19.9"):
         from .. import symrules as _SRms
-        _SRms.module_state(rep, ctx.model, "R19.9")
+        _SRms.module_state(rep, ctx.model, "R19.9", _SRms.GEOMETRY_SIDE)
     rep.floor("R19.1", 2)
     rep.floor("R19.2", 3)
     rep.floor("R19.4", 6)
